@@ -23,7 +23,7 @@ from ..gen import exprs as G
 from .. import env, hx, probe
 from . import c08 as C08, c10 as C10
 
-CASE_WALL = 20.0
+CASE_WALL = 20.0      # CPU seconds (ITIMER_VIRTUAL), not wall-clock
 
 
 class Hostile(object):
@@ -191,15 +191,15 @@ class Check(BaseCheck):
 
         def alarm(*a):
             raise WatchdogTimeout('case wall watchdog')
-        old = signal.signal(signal.SIGALRM, alarm)
-        signal.setitimer(signal.ITIMER_REAL, CASE_WALL)
+        old = signal.signal(signal.SIGVTALRM, alarm)
+        signal.setitimer(signal.ITIMER_VIRTUAL, CASE_WALL)
         r = steps = exceeded = None
         try:
             try:
                 r, steps, exceeded = self.sc.run(lambda: p.parse(f), budget)
             finally:
-                signal.setitimer(signal.ITIMER_REAL, 0)
-                signal.signal(signal.SIGALRM, old)
+                signal.setitimer(signal.ITIMER_VIRTUAL, 0)
+                signal.signal(signal.SIGVTALRM, old)
         except WatchdogTimeout:
             rec.case()
             rec.inconcl('wall watchdog (%ss) fired on %r after %s line events' % (CASE_WALL, f[:100], self.sc.steps))
